@@ -1,3 +1,651 @@
+/-
+  C08 — helper lemmas: the invariants of the four transition systems of EinoV/Model/C08.lean
+  and their preservation by every step (so they hold after every event list).
+-/
 import EinoV.Model.C08
+
+set_option linter.unusedSimpArgs false
+set_option linter.unusedVariables false
+
 namespace EinoV.C08
+
+/-! ## Pipe -/
+
+structure PInv (ph : Pipe × PHist) : Prop where
+  fifo : ph.2.accepted = ph.2.recvd ++ ph.1.buf
+  eofClosed : ph.2.eof = true → ph.1.sendClosed = true ∧ ph.1.buf = []
+  noItemAfterEof : ph.2.itemAfterEof = false
+  noLate : ph.2.lateAccept = false
+
+theorem PInv.init (cap : Nat) : PInv (Pipe.new cap, {}) := by
+  constructor <;> simp [Pipe.new]
+
+theorem PInv.step {ph ph' : Pipe × PHist} {e : PEv} (h : PInv ph)
+    (hs : Pipe.stepH ph e = some ph') : PInv ph' := by
+  obtain ⟨p, hi⟩ := ph
+  obtain ⟨h1, h2, h3, h4⟩ := h
+  simp only at h1 h2 h3 h4
+  cases e with
+  | send i =>
+    simp only [Pipe.stepH, Pipe.send] at hs
+    by_cases hsc : p.sendClosed = true <;> by_cases hrc : p.recvClosed = true <;>
+      by_cases hl : p.buf.length < p.cap <;> simp [hsc, hrc, hl] at hs <;> subst hs <;>
+      constructor <;> simp_all
+  | handoff i =>
+    simp only [Pipe.stepH, Pipe.handoff] at hs
+    split at hs
+    · rename_i p' heq
+      split at heq <;> simp at heq
+      subst heq
+      simp at hs; subst hs
+      rename_i hc
+      simp at hc
+      constructor <;> simp_all
+    · simp at hs
+  | recv =>
+    simp only [Pipe.stepH, Pipe.recv] at hs
+    cases hb : p.buf with
+    | nil =>
+      by_cases hsc : p.sendClosed = true <;> simp [hb, hsc] at hs
+      subst hs
+      constructor <;> simp_all
+    | cons x rest =>
+      simp [hb] at hs
+      subst hs
+      constructor <;> simp_all
+  | closeSend =>
+    simp only [Pipe.stepH, Pipe.closeSend] at hs
+    by_cases hsc : p.sendClosed = true <;> simp [hsc] at hs
+    subst hs
+    constructor <;> simp_all
+  | closeRecv =>
+    simp only [Pipe.stepH, Pipe.closeRecv] at hs
+    by_cases hsc : p.recvClosed = true <;> simp [hsc] at hs
+    subst hs
+    constructor <;> simp_all
+
+theorem PInv.run {ph ph' : Pipe × PHist} {evs : List PEv} (h : PInv ph)
+    (hr : Pipe.runH ph evs = some ph') : PInv ph' := by
+  induction evs generalizing ph with
+  | nil => simp [Pipe.runH] at hr; subst hr; exact h
+  | cons e es ih =>
+    simp only [Pipe.runH] at hr
+    cases hs : Pipe.stepH ph e with
+    | none => simp [hs] at hr
+    | some ph1 => simp [hs] at hr; exact ih (h.step hs) hr
+
+/-! ## Convert -/
+
+theorem convRecv_spec (g : Nat → ConvOut) (l : List Item) :
+    match convRecv g l with
+    | (.eof, rest) => l.filterMap (convItem g) = [] ∧ rest = []
+    | (.item y, rest) => l.filterMap (convItem g) = y :: rest.filterMap (convItem g) := by
+  induction l with
+  | nil => simp [convRecv]
+  | cons x xs ih =>
+    unfold convRecv
+    cases hx : convItem g x with
+    | some y => simp [hx]
+    | none =>
+      simp only [hx]
+      rw [List.filterMap_cons_none hx]
+      exact ih
+
+theorem convDrain_eq (g : Nat → ConvOut) (l : List Item) :
+    convDrain g l = l.filterMap (convItem g) := by
+  fun_induction convDrain g l with
+  | case1 l rest h =>
+    have := convRecv_spec g l
+    rw [h] at this
+    exact this.1.symm
+  | case2 l y rest h hlt ih =>
+    have := convRecv_spec g l
+    rw [h] at this
+    simp only at this
+    rw [this, ih]
+
+/-! ## Copy -/
+
+@[simp] theorem itemsOf_nil (i : Nat) : itemsOf i [] = [] := rfl
+@[simp] theorem eofOf_nil (i : Nat) : eofOf i [] = false := rfl
+
+theorem itemsOf_append (i j : Nat) (r : Res) (outs : List (Nat × Res)) :
+    itemsOf i (outs ++ [(j, r)]) = itemsOf i outs ++ (if j = i then r.item?.toList else []) := by
+  unfold itemsOf
+  rw [List.filterMap_append]
+  congr 1
+  by_cases h : j = i <;> simp [h]
+  cases r <;> simp [Res.item?]
+
+theorem eofOf_append (i j : Nat) (r : Res) (outs : List (Nat × Res)) :
+    eofOf i (outs ++ [(j, r)]) = (eofOf i outs || (decide (j = i) && r.isEof)) := by
+  unfold eofOf
+  simp [List.any_append]
+
+theorem count_none_lt {l : List (Option Nat)} {i k : Nat} (h : l[i]? = some (some k)) :
+    l.count none < l.length := by
+  induction l generalizing i with
+  | nil => simp at h
+  | cons x xs ih =>
+    cases i with
+    | zero => simp at h; subst h; simp; exact Nat.lt_succ_of_le (List.count_le_length)
+    | succ i =>
+      simp at h
+      have := ih h
+      cases x <;> simp [List.count_cons] <;> omega
+
+theorem count_none_set {l : List (Option Nat)} {i k : Nat} (h : l[i]? = some (some k)) :
+    (l.set i none).count none = l.count none + 1 := by
+  induction l generalizing i with
+  | nil => simp at h
+  | cons x xs ih =>
+    cases i with
+    | zero => simp at h; subst h; simp [List.count_cons]
+    | succ i =>
+      simp at h
+      have := ih h
+      cases x <;> simp [List.count_cons, this]
+
+theorem count_none_eq_length {l : List (Option Nat)} :
+    l.count none = l.length ↔ ∀ i, i < l.length → l[i]? = some none := by
+  induction l with
+  | nil => simp
+  | cons x xs ih =>
+    constructor
+    · intro h i hi
+      cases x with
+      | none =>
+        simp [List.count_cons] at h
+        cases i with
+        | zero => simp
+        | succ i => simp; exact ih.1 h i (by simpa using hi)
+      | some v =>
+        simp [List.count_cons] at h
+        have := @List.count_le_length _ _ (none : Option Nat) xs
+        omega
+    · intro h
+      have h0 := h 0 (by simp)
+      simp at h0; subst h0
+      simp [List.count_cons]
+      apply ih.2
+      intro i hi
+      have := h (i+1) (by simpa using hi)
+      simpa using this
+
+
+theorem count_none_set_some {l : List (Option Nat)} {i k k' : Nat} (h : l[i]? = some (some k)) :
+    (l.set i (some k')).count none = l.count none := by
+  induction l generalizing i with
+  | nil => simp at h
+  | cons x xs ih =>
+    cases i with
+    | zero => simp at h; subst h; simp [List.count_cons]
+    | succ i =>
+      simp at h
+      have := ih h
+      cases x <;> simp [List.count_cons, this]
+
+variable {σ : Type}
+
+def goodCopy : CopyFacts := ⟨true, true, true⟩
+
+structure CInv (n : Nat) (y : CopySys σ) : Prop where
+  len : y.core.cursors.length = n
+  pulledLog : y.pulled.filterMap Res.item? = y.core.log
+  eofMem : y.core.eofSeen = true ↔ Res.eof ∈ y.pulled
+  cur : ∀ i k, y.core.cursors[i]? = some (some k) →
+    k ≤ y.core.log.length ∧ itemsOf i y.outs = y.core.log.take k
+  closedPre : ∀ i, y.core.cursors[i]? = some none → itemsOf i y.outs <+: y.core.log
+  outRange : ∀ i, y.core.cursors[i]? = none → itemsOf i y.outs = [] ∧ eofOf i y.outs = false
+  eofAll : ∀ i, eofOf i y.outs = true → y.core.eofSeen = true ∧ itemsOf i y.outs = y.core.log
+  cnt : y.core.closedNum = y.core.cursors.count none
+  srcC : y.core.srcClosed = if y.core.closedNum = n then 1 else 0
+
+theorem CInv.init (n : Nat) (hn : 0 < n) (s : σ) : CInv n (CopySys.init n s) where
+  len := by simp [CopySys.init, CopyCore.new]
+  pulledLog := by simp [CopySys.init, CopyCore.new]
+  eofMem := by simp [CopySys.init, CopyCore.new]
+  cur := by
+    intro i k h
+    simp [CopySys.init, CopyCore.new, List.getElem?_replicate] at h
+    simp [CopySys.init, CopyCore.new]; omega
+  closedPre := by
+    intro i h; simp [CopySys.init, CopyCore.new, List.getElem?_replicate] at h
+  outRange := by intro i _; simp [CopySys.init]
+  eofAll := by intro i h; simp [CopySys.init] at h
+  cnt := by
+    simp only [CopySys.init, CopyCore.new]
+    rw [List.count_replicate]; simp
+  srcC := by
+    simp only [CopySys.init, CopyCore.new]
+    have : ¬ (0 = n) := by omega
+    simp [this]
+
+theorem CInv.step {n : Nat} (hn : 0 < n) (S : Src σ) {y y' : CopySys σ} {e : CEv σ}
+    (h : CInv n y) (hs : y.step goodCopy S e = some y') : CInv n y' := by
+  obtain ⟨hlen, hpl, hem, hcur, hcp, hor, hea, hcnt, hsc⟩ := h
+  cases e with
+  | env g =>
+    simp [CopySys.step] at hs; subst hs
+    exact ⟨hlen, hpl, hem, hcur, hcp, hor, hea, hcnt, hsc⟩
+  | close i =>
+    simp only [CopySys.step, CopyCore.close, goodCopy] at hs
+    cases hci : y.core.cursors[i]? with
+    | none =>
+      simp [hci] at hs; subst hs
+      exact ⟨hlen, hpl, hem, hcur, hcp, hor, hea, hcnt, hsc⟩
+    | some o =>
+      cases o with
+      | none =>
+        simp [hci] at hs; subst hs
+        exact ⟨hlen, hpl, hem, hcur, hcp, hor, hea, hcnt, hsc⟩
+      | some k =>
+        simp [hci] at hs; subst hs
+        have hlt := count_none_lt hci
+        have hset := count_none_set hci
+        have hi : i < y.core.cursors.length := by
+          rcases List.getElem?_eq_some_iff.mp hci with ⟨h, _⟩; exact h
+        refine ⟨by simpa using hlen, hpl, hem, ?_, ?_, ?_, hea, ?_, ?_⟩
+        · intro j kj hj
+          by_cases hji : j = i
+          · subst hji; simp [List.getElem?_set, hi] at hj
+          · rw [List.getElem?_set_ne (Ne.symm hji)] at hj; exact hcur j kj hj
+        · intro j hj
+          by_cases hji : j = i
+          · subst hji
+            have := hcur j k hci
+            rw [this.2]; exact List.take_prefix _ _
+          · simp only [] at hj
+            rw [List.getElem?_set_ne (Ne.symm hji)] at hj; exact hcp j hj
+        · intro j hj
+          by_cases hji : j = i
+          · subst hji; simp [List.getElem?_set, hi] at hj
+          · simp only [] at hj
+            rw [List.getElem?_set_ne (Ne.symm hji)] at hj; exact hor j hj
+        · simp [hset, hcnt]
+        · simp only []
+          rw [hcnt] at hsc ⊢
+          rw [hlen] at hlt ⊢
+          have h0 : y.core.srcClosed = 0 := by rw [hsc]; simp; omega
+          simp [h0]
+  | recv i =>
+    simp only [CopySys.step, CopyCore.peekLocal, goodCopy] at hs
+    cases hci : y.core.cursors[i]? with
+    | none => simp [hci] at hs
+    | some o =>
+      cases o with
+      | none => simp [hci] at hs
+      | some k =>
+        have hi : i < y.core.cursors.length := by
+          rcases List.getElem?_eq_some_iff.mp hci with ⟨h, _⟩; exact h
+        obtain ⟨hk, hik⟩ := hcur i k hci
+        simp only [hci] at hs
+        cases hlk : y.core.log[k]? with
+        | some it =>
+          simp [hlk] at hs; subst hs
+          have hklt : k < y.core.log.length := by
+            rcases List.getElem?_eq_some_iff.mp hlk with ⟨h, _⟩; exact h
+          have hget : y.core.log[k] = it := by
+            rcases List.getElem?_eq_some_iff.mp hlk with ⟨_, h⟩; exact h
+          refine ⟨by simpa using hlen, hpl, hem, ?_, ?_, ?_, ?_, ?_, hsc⟩
+          · intro j kj hj
+            by_cases hji : j = i
+            · subst hji
+              simp [List.getElem?_set, hi] at hj; subst hj
+              refine ⟨hklt, ?_⟩
+              simp only [itemsOf_append, hik]
+              simp [Res.item?]
+              rw [← hget, List.take_succ_eq_append_getElem hklt]
+            · simp only [] at hj
+              rw [List.getElem?_set_ne (Ne.symm hji)] at hj
+              simp only [itemsOf_append]; simp [Ne.symm hji]; exact hcur j kj hj
+          · intro j hj
+            by_cases hji : j = i
+            · subst hji; simp [List.getElem?_set, hi] at hj
+            · simp only [] at hj
+              rw [List.getElem?_set_ne (Ne.symm hji)] at hj
+              simp only [itemsOf_append]; simp [Ne.symm hji]; exact hcp j hj
+          · intro j hj
+            by_cases hji : j = i
+            · subst hji; simp [List.getElem?_set, hi] at hj
+            · simp only [] at hj
+              rw [List.getElem?_set_ne (Ne.symm hji)] at hj
+              simp only [itemsOf_append, eofOf_append]; simp [Ne.symm hji, Res.isEof]; exact hor j hj
+          · intro j hj
+            simp only [eofOf_append] at hj
+            simp [Res.isEof] at hj
+            have := hea j hj
+            by_cases hji : j = i
+            · subst hji
+              -- child j already saw EOF: its cursor is at the end of the log, contradiction
+              rw [hik] at this
+              have h2 := congrArg List.length this.2
+              simp at h2; omega
+            · simp only [itemsOf_append]; simp [Ne.symm hji]; exact this
+          · simp only []
+            rw [hcnt, count_none_set_some hci]
+        | none =>
+          have hkeq : k = y.core.log.length := by
+            have := List.getElem?_eq_none_iff.mp hlk
+            omega
+          by_cases hes : y.core.eofSeen = true
+          · simp [hlk, hes] at hs; subst hs
+            refine ⟨hlen, hpl, hem, ?_, ?_, ?_, ?_, hcnt, hsc⟩
+            · intro j kj hj
+              simp only [itemsOf_append]
+              by_cases hji : j = i
+              · subst hji; simp [Res.item?]; exact hcur j kj hj
+              · simp [Ne.symm hji]; exact hcur j kj hj
+            · intro j hj
+              simp only [itemsOf_append]
+              by_cases hji : j = i
+              · subst hji; simp [Res.item?]; exact hcp j hj
+              · simp [Ne.symm hji]; exact hcp j hj
+            · intro j hj
+              have hji : j ≠ i := by intro h; subst h; simp [hci] at hj
+              simp only [itemsOf_append, eofOf_append]; simp [Ne.symm hji]; exact hor j hj
+            · intro j hj
+              simp only [eofOf_append] at hj
+              simp only [itemsOf_append]
+              by_cases hji : j = i
+              · subst hji
+                simp [Res.item?]
+                refine ⟨hes, ?_⟩
+                rw [hik, hkeq]; simp
+              · simp [Ne.symm hji] at hj ⊢
+                exact hea j hj
+          · simp [hlk, hes] at hs
+            cases hsr : S.recv y.src with
+            | none => simp [hsr] at hs
+            | some rs =>
+              obtain ⟨r, s'⟩ := rs
+              simp [hsr] at hs; subst hs
+              have noEof : ∀ j, eofOf j y.outs = false := by
+                intro j
+                cases hj : eofOf j y.outs with
+                | false => rfl
+                | true => exact absurd (hea j hj).1 hes
+              cases r with
+              | eof =>
+                simp only [CopyCore.fill]
+                refine ⟨hlen, ?_, ?_, ?_, ?_, ?_, ?_, hcnt, hsc⟩
+                · simp [List.filterMap_append, Res.item?, hpl]
+                · simp
+                · intro j kj hj
+                  simp only [itemsOf_append]
+                  by_cases hji : j = i
+                  · subst hji; simp [Res.item?]; exact hcur j kj hj
+                  · simp [Ne.symm hji]; exact hcur j kj hj
+                · intro j hj
+                  simp only [itemsOf_append]
+                  by_cases hji : j = i
+                  · subst hji; simp [Res.item?]; exact hcp j hj
+                  · simp [Ne.symm hji]; exact hcp j hj
+                · intro j hj
+                  have hji : j ≠ i := by intro h; subst h; simp [hci] at hj
+                  simp only [itemsOf_append, eofOf_append]; simp [Ne.symm hji]; exact hor j hj
+                · intro j hj
+                  simp only [eofOf_append] at hj
+                  simp only [itemsOf_append]
+                  by_cases hji : j = i
+                  · subst hji
+                    simp [Res.item?]
+                    rw [hik, hkeq]; simp
+                  · simp [Ne.symm hji, noEof j] at hj
+              | item it =>
+                simp only [CopyCore.fill]
+                have htk : List.take k y.core.log = y.core.log := by rw [hkeq]; simp
+                refine ⟨by simpa using hlen, ?_, ?_, ?_, ?_, ?_, ?_, ?_, hsc⟩
+                · simp [List.filterMap_append, Res.item?, hpl, htk]
+                · simp only []
+                  rw [hem]; simp
+                · intro j kj hj
+                  simp only [] at hj ⊢
+                  rw [htk]
+                  by_cases hji : j = i
+                  · subst hji
+                    simp [List.getElem?_set, hi] at hj; subst hj
+                    simp only [itemsOf_append, hik, htk]
+                    simp [Res.item?, hkeq]
+                    rw [List.take_of_length_le (by simp)]
+                  · rw [List.getElem?_set_ne (Ne.symm hji)] at hj
+                    obtain ⟨h1, h2⟩ := hcur j kj hj
+                    simp only [itemsOf_append]; simp [Ne.symm hji]
+                    refine ⟨by omega, ?_⟩
+                    rw [h2, List.take_append_of_le_length h1]
+                · intro j hj
+                  simp only [] at hj ⊢
+                  rw [htk]
+                  by_cases hji : j = i
+                  · subst hji; simp [List.getElem?_set, hi] at hj
+                  · rw [List.getElem?_set_ne (Ne.symm hji)] at hj
+                    simp only [itemsOf_append]; simp [Ne.symm hji]
+                    exact (hcp j hj).trans (List.prefix_append _ _)
+                · intro j hj
+                  simp only [] at hj
+                  by_cases hji : j = i
+                  · subst hji; simp [List.getElem?_set, hi] at hj
+                  · rw [List.getElem?_set_ne (Ne.symm hji)] at hj
+                    simp only [itemsOf_append, eofOf_append]; simp [Ne.symm hji, Res.isEof]; exact hor j hj
+                · intro j hj
+                  simp only [eofOf_append] at hj
+                  simp [Res.isEof, noEof j] at hj
+                · simp only []
+                  rw [hcnt, count_none_set_some hci]
+
+theorem CInv.run {n : Nat} (hn : 0 < n) (S : Src σ) {y y' : CopySys σ} {evs : List (CEv σ)}
+    (h : CInv n y) (hr : y.run goodCopy S evs = some y') : CInv n y' := by
+  induction evs generalizing y with
+  | nil => simp [CopySys.run] at hr; subst hr; exact h
+  | cons e es ih =>
+    simp only [CopySys.run] at hr
+    cases hs : y.step goodCopy S e with
+    | none => simp [hs] at hr
+    | some y1 => simp [hs] at hr; exact ih (h.step hn S hs) hr
+
+/-! ## Merge -/
+
+theorem ofSrc_append (k j : Nat) (x : Item) (l : List (Nat × Item)) :
+    ofSrc k (l ++ [(j, x)]) = ofSrc k l ++ (if j = k then [x] else []) := by
+  unfold ofSrc
+  rw [List.filterMap_append]
+  by_cases h : j = k <;> simp [h]
+
+theorem selCases_ok {tbl : List (List (Nat × Nat))} {maxSel : Nat} (h : tblOK tbl maxSel = true) (n : Nat) :
+    selCases tbl maxSel n = (List.range n).map fun j => (j, j) := by
+  unfold selCases
+  split
+  · rfl
+  · rename_i hn
+    unfold tblOK at h
+    simp only [Bool.and_eq_true, List.all_eq_true] at h
+    have := h.2 n (by simp; omega)
+    simp at this
+    simp [this]
+
+theorem selCases_get {tbl : List (List (Nat × Nat))} {maxSel : Nat} (h : tblOK tbl maxSel = true)
+    {n c a b : Nat} (hc : (selCases tbl maxSel n)[c]? = some (a, b)) : a = c ∧ b = c ∧ c < n := by
+  rw [selCases_ok h] at hc
+  simp [List.getElem?_map] at hc
+  obtain ⟨h1, rfl⟩ := hc
+  rcases List.getElem?_eq_some_iff.mp h1 with ⟨hlt, hget⟩
+  simp at hlt hget
+  omega
+
+
+structure MInv (m : MergeSt) : Prop where
+  fifo : ∀ k p, m.srcs[k]? = some p → ofSrc k m.acc = ofSrc k m.outs ++ p.buf
+  dropped : ∀ k p, m.srcs[k]? = some p → k ∉ m.chosen → p.sendClosed = true ∧ p.buf = []
+  eofEmpty : m.eofOut = true → m.chosen = []
+
+theorem MInv.init (caps : List Nat) : MInv (MergeSt.init caps) where
+  fifo := by
+    intro k p h
+    simp [MergeSt.init, List.getElem?_map] at h
+    rcases h with ⟨c, _, rfl⟩
+    simp [MergeSt.init, ofSrc, Pipe.new]
+  dropped := by
+    intro k p h hk
+    simp [MergeSt.init, List.getElem?_map] at h hk
+    rcases h with ⟨c, hc, rfl⟩
+    rcases List.getElem?_eq_some_iff.mp hc with ⟨hlt, _⟩
+    omega
+  eofEmpty := by simp [MergeSt.init]
+
+theorem getElem?_set_pipe {l : List Pipe} {i k : Nat} {p q : Pipe} (h : (l.set i p)[k]? = some q) :
+    (k = i ∧ q = p ∧ i < l.length) ∨ (k ≠ i ∧ l[k]? = some q) := by
+  rw [List.getElem?_set] at h
+  split at h
+  · rename_i hik
+    split at h
+    · simp at h; left; exact ⟨hik.symm, h.symm, by assumption⟩
+    · simp at h
+  · rename_i hik; right; exact ⟨fun e => hik e.symm, h⟩
+
+theorem MInv.step {tbl : List (List (Nat × Nat))} {maxSel : Nat} (ht : tblOK tbl maxSel = true)
+    {m m' : MergeSt} {e : MEv} (h : MInv m) (hs : m.step tbl maxSel e = some m') : MInv m' := by
+  obtain ⟨hf, hd, he⟩ := h
+  cases e with
+  | eof =>
+    simp only [MergeSt.step] at hs
+    split at hs
+    · simp at hs; subst hs
+      rename_i hc
+      exact ⟨hf, hd, fun _ => by simpa using hc⟩
+    · simp at hs
+  | closeSend k =>
+    simp only [MergeSt.step] at hs
+    cases hk : m.srcs[k]? with
+    | none => simp [hk] at hs
+    | some p =>
+      simp [hk, Pipe.closeSend] at hs
+      obtain ⟨q0, ⟨hsc, rfl⟩, rfl⟩ := hs
+      refine ⟨?_, ?_, he⟩
+      · intro j q hj
+        rcases getElem?_set_pipe hj with ⟨rfl, rfl, _⟩ | ⟨_, hj'⟩
+        · exact hf _ p hk
+        · exact hf _ _ hj'
+      · intro j q hj hjc
+        rcases getElem?_set_pipe hj with ⟨rfl, rfl, _⟩ | ⟨_, hj'⟩
+        · have := hd _ p hk hjc; simp_all
+        · exact hd _ _ hj' hjc
+  | send k i =>
+    simp only [MergeSt.step] at hs
+    cases hk : m.srcs[k]? with
+    | none => simp [hk] at hs
+    | some p =>
+      simp only [hk, Pipe.send] at hs
+      by_cases hsc : p.sendClosed = true
+      · simp [hsc] at hs
+      · by_cases hrc : p.recvClosed = true
+        · simp [hsc, hrc] at hs; subst hs
+          refine ⟨?_, ?_, he⟩
+          · intro j q hj
+            rcases getElem?_set_pipe hj with ⟨rfl, rfl, _⟩ | ⟨_, hj'⟩
+            · exact hf _ _ hk
+            · exact hf _ _ hj'
+          · intro j q hj hjc
+            rcases getElem?_set_pipe hj with ⟨rfl, rfl, _⟩ | ⟨_, hj'⟩
+            · exact hd _ _ hk hjc
+            · exact hd _ _ hj' hjc
+        · by_cases hl : p.buf.length < p.cap
+          · simp [hsc, hrc, hl] at hs; subst hs
+            refine ⟨?_, ?_, he⟩
+            · intro j q hj
+              simp only [ofSrc_append]
+              rcases getElem?_set_pipe hj with ⟨rfl, rfl, _⟩ | ⟨hne, hj'⟩
+              · simp [hf _ _ hk]
+              · simp [Ne.symm hne]; exact hf _ _ hj'
+            · intro j q hj hjc
+              rcases getElem?_set_pipe hj with ⟨rfl, rfl, _⟩ | ⟨_, hj'⟩
+              · have := hd _ _ hk hjc; simp_all
+              · exact hd _ _ hj' hjc
+          · simp [hsc, hrc, hl] at hs
+  | handoff k i c =>
+    simp only [MergeSt.step] at hs
+    cases hc : (selCases tbl maxSel m.chosen.length)[c]? with
+    | none => simp [hc] at hs
+    | some ab =>
+      obtain ⟨a, b⟩ := ab
+      simp only [hc] at hs
+      split at hs
+      · rename_i hch
+        cases hk : m.srcs[k]? with
+        | none => simp [hk] at hs
+        | some p =>
+          simp only [hk, Pipe.handoff] at hs
+          split at hs
+          · simp at hs
+          · rename_i x p' hx
+            split at hx
+            · simp at hx
+            · rename_i hcond
+              simp at hcond
+              simp at hs; subst hs
+              refine ⟨?_, hd, he⟩
+              intro j q hj
+              simp only [ofSrc_append]
+              by_cases hjk : k = j
+              · subst hjk
+                rw [hk] at hj; simp at hj; subst hj
+                have := hf _ _ hk
+                simp [this, hcond.2]
+              · simp [hjk]; exact hf _ _ hj
+      · simp at hs
+  | sel c =>
+    simp only [MergeSt.step] at hs
+    cases hc : (selCases tbl maxSel m.chosen.length)[c]? with
+    | none => simp [hc] at hs
+    | some ab =>
+      obtain ⟨a, b⟩ := ab
+      obtain ⟨ha, hb2, hcn⟩ := selCases_get ht hc
+      rw [ha, hb2] at hc
+      simp only [hc] at hs
+      cases hch : m.chosen[c]? with
+      | none => simp [hch] at hs
+      | some sa =>
+        simp only [hch] at hs
+        have hmem : sa ∈ m.chosen := List.mem_of_getElem? hch
+        cases hk : m.srcs[sa]? with
+        | none => simp [hk] at hs
+        | some p =>
+          simp only [hk, Pipe.recv] at hs
+          cases hb : p.buf with
+          | nil =>
+            by_cases hsc : p.sendClosed = true
+            · simp [hb, hsc] at hs; subst hs
+              refine ⟨hf, ?_, ?_⟩
+              · intro j q hj hjc
+                simp only [] at hj hjc
+                by_cases hjs : j = sa
+                · subst hjs; rw [hk] at hj; simp at hj; subst hj; exact ⟨hsc, hb⟩
+                · exact hd j q hj (fun hm => hjc ((List.mem_erase_of_ne hjs).mpr hm))
+              · intro h
+                have := he h
+                simp [this] at hmem
+            · simp [hb, hsc] at hs
+          | cons x rest =>
+            simp [hb] at hs; subst hs
+            refine ⟨?_, ?_, he⟩
+            · intro j q hj
+              simp only [ofSrc_append]
+              rcases getElem?_set_pipe hj with ⟨rfl, rfl, _⟩ | ⟨hne, hj'⟩
+              · have := hf _ p hk
+                simp [this, hb]
+              · simp [Ne.symm hne]; exact hf _ _ hj'
+            · intro j q hj hjc
+              rcases getElem?_set_pipe hj with ⟨rfl, rfl, _⟩ | ⟨_, hj'⟩
+              · exact absurd hmem hjc
+              · exact hd _ _ hj' hjc
+
+theorem MInv.run {tbl : List (List (Nat × Nat))} {maxSel : Nat} (ht : tblOK tbl maxSel = true)
+    {m m' : MergeSt} {evs : List MEv} (h : MInv m) (hr : m.run tbl maxSel evs = some m') : MInv m' := by
+  induction evs generalizing m with
+  | nil => simp [MergeSt.run] at hr; subst hr; exact h
+  | cons e es ih =>
+    simp only [MergeSt.run] at hr
+    cases hs : m.step tbl maxSel e with
+    | none => simp [hs] at hr
+    | some m1 => simp [hs] at hr; exact ih (h.step ht hs) hr
+
 end EinoV.C08
